@@ -287,6 +287,37 @@ def h_exhaust(ctx, cfg):
               "%s: %d source items read for %d outputs" % (cfg["stage"], src.count, n))
 
 
+def h_secondary(ctx, cfg):
+  """Stages with a second lazy input besides the signal (the filter `memory` iterable, the Karplus-Strong memory, the
+  lag data of a mixer event): building the stage reads nothing from the signal and only the documented, bounded
+  number of items from the second input - which may be endless."""
+  import audiolazy as al
+  from audiolazy import Stream, z
+  with _patched():
+    src = Source(ctx, "real"); mem = Source(ctx, "real", tag="m")
+    wrap = {"iterator": lambda m: m, "stream": lambda m: Stream(m), "generator": lambda m: (v for v in m)}[cfg["mem"]]
+    lm = cfg["lm"]
+    if cfg["stage"] == "filter":
+      den = 1 - sum(0.5 ** j * z ** -j for j in range(1, lm + 1))
+      stage = ((1 + z ** -1) / den)(src, memory=wrap(mem), zero=0)
+    elif cfg["stage"] == "cascade":
+      stage = al.CascadeFilter(1 / (1 - 0.5 * z ** -lm))(src, memory=wrap(mem), zero=0)
+    elif cfg["stage"] == "karplus":
+      stage = al.karplus_strong(2 * 3.141592653589793 / lm, memory=wrap(mem))
+    else: raise ValueError(cfg["stage"])
+    ctx.prove(src.count == 0, "no-read-at-construction", "signal read %d items while the stage was built" % src.count)
+    ctx.prove(mem.count <= lm + 1, "secondary-input-read-is-bounded-at-construction",
+              "%d items of the memory iterable read for a memory of %d" % (mem.count, lm))
+    m0 = mem.count
+    itr = iter(stage)
+    k = ctx.split("k", 0, cfg["K"])
+    for i in range(1, k + 1):
+      next(itr)
+      if cfg["stage"] != "karplus":
+        ctx.prove(src.count == i, "reads-exactly-what-it-needs", "%d signal items after %d outputs" % (src.count, i))
+      ctx.prove(mem.count <= max(m0, lm + 1), "secondary-input-not-read-further", "%d memory items after %d outputs" % (mem.count, i))
+
+
 def h_peek_take(ctx, cfg):
   """take(n)/peek(n) read exactly n; a finite `take` never touches item n+1."""
   from audiolazy import Stream
@@ -333,6 +364,10 @@ def tasks(tier, seed):
     T.append(("h_chain", {"first": a, "second": b, "K": 3 if (not big or forky) else 5, "S": 2 if not big else 3}))
   for meth in ("take", "peek"):
     T.append(("h_peek_take", {"meth": meth, "K": K}))
+  for stage in ("filter", "cascade", "karplus"):
+    for memk in ("iterator", "stream", "generator"):
+      for lm in (1, 2, 3):
+        T.append(("h_secondary", {"stage": stage, "mem": memk, "lm": lm, "K": 3}))
   for st in ("Stream.limit", "islice", "Stream.take", "limit.copy", "limit+1", "peek-then-limit", "zip-with-finite"):
     T.append(("h_exhaust", {"stage": st, "K": K}))
   return T
